@@ -33,7 +33,7 @@ COMPONENTS = {"real": ["pel.peltool.peltool.main() in-process"],
 ASSUMPTIONS = ["file names follow the BMC convention <bcd time>_<EID> and no name contains the 8-digit id of another file",
                "--src-exclude is issued together with -E and only on stores where every PEL has a primary SRC (the code applies the default class filter to it; whether the property's last sentence covers it is arguable, so exactness is tested without taking a side)",
                "a PEL without primary SRC has no reference code and is expected in no --src result"]
-PROBES = ["symlinked_pel", "lookup:plid", "lookup:bmc", "lookup:id", "lookup:src", "lookup:srcx", "id_small", "id_mid", "id_max", "hidden_hit",
+PROBES = ["nested_pel", "symlinked_pel", "lookup:plid", "lookup:bmc", "lookup:id", "lookup:src", "lookup:srcx", "id_small", "id_mid", "id_max", "hidden_hit",
           "nonserviceable_hit", "json_sibling_listed_first", "near_miss", "after_delete", "after_json", "shared_plid_hit", "hex"]
 
 
@@ -63,7 +63,16 @@ def gen_plan(rng, tier, run):
         for j, g in enumerate(allf):
             if i != j and ("%08X" % g["recipe"]["eid"]) in f["name"]:
                 f["name"] = "pel_%08X" % f["recipe"]["eid"]
-    plan = {"files": files, "extra": extra, "all_src": all_src,
+    # PELs below the PEL directory (archive/ ...): never part of any look-up result
+    nested = []
+    if rng.random() < 0.35:
+        for f in common.gen_store(rng, rng.randint(1, 3), style="bmc", refpool=common.REFCODE_POOL, with_src=True, max_sections=2,
+                                  id_magnitude=magc, dup_plid=0):
+            if f["recipe"]["eid"] not in used and not any(("%08X" % f["recipe"]["eid"]) in g["name"] for g in files + extra):
+                used.add(f["recipe"]["eid"])
+                f["sub"] = rng.choice(["archive", "archive", "old/deeper"])
+                nested.append(f)
+    plan = {"files": files, "extra": extra, "all_src": all_src, "nested": nested,
             # the PEL directory's own name (glob metacharacters, blanks, an id) and the terminal's encoding
             "dname": rng.choice(["D"] * 6 + ["pels[node0]", "run-1[a-z]", "logs*", "what?", "a b", "%08X" % pelgen.gen_id(rng)]),
             "stdout_encoding": rng.choice(["utf-8", "utf-8", "utf-8", "ascii", "latin-1"]),
@@ -89,6 +98,8 @@ def gen_plan(rng, tier, run):
                                            ["-t", "-O"], ["-S", "Recovered"]])
             tgt = rng.choice(pool)["recipe"] if pool else rng.choice(allf)["recipe"]
             how = rng.choice(["hit", "hit", "hit", "near", "absent"])
+            if plan["nested"] and rng.random() < 0.25:
+                tgt, how = rng.choice(plan["nested"])["recipe"], "nested"     # exists only below a sub-directory
             op["how"] = how
             if kind in ("plid", "id"):
                 v = tgt["plid"] if kind == "plid" else tgt["eid"]
@@ -114,7 +125,7 @@ def gen_plan(rng, tier, run):
             elif kind == "src":
                 ps = [s for s in tgt["sections"] if s["kind"] == "src" and s["id"] == "PS"]
                 code = ps[0]["ascii"].strip() if ps else rng.choice(common.REFCODE_POOL)
-                if how == "hit":
+                if how in ("hit", "nested"):
                     op["arg"] = rng.choice([code, code[:2], code[:4], code[:6], code[2:6], code[4:], code[1:7]])
                 elif how == "near":
                     i = rng.randrange(len(code))
@@ -205,6 +216,9 @@ def execute(plan):
         if dname != "D":
             bump("dir_name_special")
         common.put_store(w, dname, plan["files"])
+        for f in plan.get("nested", []):
+            common.put_store(w, dname + "/" + f["sub"], [f])
+            bump("nested_pel")
         head = ["", "# L\u00fcfter / \u30d5\u30a1\u30f3\n", "\ufeff"][len(plan["exclude"]) % 3]     # comment / BOM written by some editors
         w.put("X/exclude.txt", (head + "\n".join(plan["exclude"])).encode("utf-8"))
         for f in plan["files"]:
@@ -222,7 +236,7 @@ def execute(plan):
             # the model: PEL files currently in the directory (facts by construction)
             present = sorted(os.listdir(w.path(dname)))
             model = {n: pelgen.facts(recipe_of[n]) for n in present if n in recipe_of}
-            others = [n for n in present if n not in recipe_of]
+            others = [n for n in present if n not in recipe_of and not os.path.isdir(os.path.join(w.path(dname), n))]
             argv = argv_of(op, dname)
             r = w.run(argv, order=op["order"], stdout_encoding=plan.get("stdout_encoding", "utf-8"))
             events += len(r.events)
